@@ -162,6 +162,14 @@ def st_sensitivity(ids):
                 hit = [ln for ln in r.stdout.splitlines() if ln.startswith('VIOLATION')]
                 cls = [ln for ln in r.stdout.splitlines() if 'violation class' in ln]
                 ok = r.returncode == 1 and hit
+                if ok and os.environ.get('VERIF_SAVE_CORPUS'):
+                    # keep the minimised histories that told this change from the correct library
+                    cd = os.path.join(boot.VERIF, 'corpus', pid)
+                    os.makedirs(cd, exist_ok=True)
+                    for n_, ln in enumerate(hit[:2]):
+                        src = ln.split('replay=', 1)[1].strip()
+                        if os.path.exists(src):
+                            shutil.copy(src, os.path.join(cd, f"{name}-{n_}.json"))
                 rows.append((name, pid, 'DETECTED' if ok else f'MISSED (exit {r.returncode})',
                              f"{time.time() - t0:.0f}s", cls[0][:160] if cls else ''))
                 if not ok:
